@@ -21,7 +21,7 @@ RULE = ("state = multiset of k lattice points x scaling; every distinct ordering
 ASSUMPTIONS = ["fractions.Fraction arithmetic of CPython is exact",
                "tolerance | |v|-|v*| | <= 1e-9*max(1, max_i |p_i|) (purely relative is meaningless when 0 is in the hull)"]
 CHUNK = 200
-CHUNK_TIMEOUT = 600.0
+STATE_TIMEOUT = 120.0
 
 SCALES = {
     "unit": (1.0, 1.0, 1.0),
